@@ -140,6 +140,29 @@ func Run(args []string) {
 		x.add([]byte(s))
 	}
 	x.flush()
+	// every byte value at every position of every seed (replace) and at a sample of positions (insert): the schema
+	// scanner has no product-state exploration, this sweep is what exercises all 256 bytes in every state the seeds reach
+	x.stream = "byte_sweep"
+	for _, s := range seeds {
+		for i := 0; i < len(s); i++ {
+			if vh.Tier() != "thorough" && len(s) > 60 && i%3 != int(vh.Seed()%3) {
+				continue
+			}
+			for b := 0; b < 256; b++ {
+				m := []byte(s)
+				if m[i] == byte(b) {
+					continue
+				}
+				m[i] = byte(b)
+				x.add(m)
+				if vh.Tier() == "thorough" {
+					ins := append(append(append([]byte{}, s[:i]...), byte(b)), s[i:]...)
+					x.add(ins)
+				}
+			}
+		}
+	}
+	x.flush()
 	x.stream = "mutation"
 	for i := 0; i < nMut; i++ {
 		x.add(vh.Mutate(r, []byte(seeds[r.Intn(len(seeds))]), alphabet))
